@@ -30,6 +30,18 @@ CHECKS = {
    tech="TLA+ spec JtPyTree/JtArray (per-leaf keys LabelOf(i,S) o name, label inheritance through structure-less PyTrees, AnnotationError outside / under two structured PyTrees); TLC exhaustive depth-1 table from contexts in which an earlier tree bound T and per-leaf sizes; rows executed on the code and re-decided by TLC",
    text="Second and later trees are checked in contexts where T=(*,*) and per-leaf '?a' / '*?v' values (and a plain a) are already bound: same position must agree, different positions are independent, plain axes do not interact, '?' in unions / tuples / structure-less PyTrees / nested annotation spellings is usable under exactly one structured PyTree, AnnotationError outside and beneath two structured PyTrees.",
    note="Manual isinstance route only (decorated-call route is exercised by C02/C13 harness). Per-leaf keys are abstracted from storage keys by a regular expression."),
+ "C02": dict(cat="model_checking", sec="5 C02",
+   tech="TLA+ specs JtArray (GreedyIsSat/SolsStep inductive theorems checked by TLC over all context states) and JtWrapper (CallOutcome = fold of checks; CallOrderFree evaluated by TLC on every case); real decorated functions executed in all variants and each variant compared with the TLC-decided outcome (Rows_JtCall)",
+   text="TLC proves on the bounded universe that the greedy walk accepts iff the filtered solution set is non-empty and that the new context denotes exactly that set (inductive step => acceptance of a call == satisfiability => order independence); random signatures of 1..5 parameters are executed under both typecheckers, both decorator spellings, def/dataclass, admissible permutations and positional/keyword/reversed-keyword passing, with sibling calls reusing functions and array objects; TLC decides the single allowed outcome per case.",
+   note="Unions excluded. Permutations only for signatures without symbolic parameters. Cases are sampled (seeded), the TLC theorem is exhaustive within its constants."),
+ "C13": dict(cat="model_checking", sec="5 C13",
+   tech="TLA+ spec JtWrapper.CallOutcome (stage, blamed = first failing parameter in declared order given its predecessors, printed = bindings in force at detection) decided by TLC for every executed failing call; message parsed and compared field by field",
+   text="Every generated ill-typed call (failure at any parameter or at the return value, unresolvable symbolic axes -> AnnotationError) is executed with both typecheckers, three passing styles, as dataclass, and with both values of the remove-typechecker-stack switch; stage sentence, function, blamed parameter, exactly the printed bindings, __cause__ presence and 'AnnotationError never converted' are compared with the specification by TLC.",
+   note="Unions and PyTree-annotated parameters are not generated. Message parsed by regular expressions on its documented sentences."),
+ "C17": dict(cat="model_checking", sec="5 C17",
+   tech="one TLC-decided verdict per case (JtWrapper over JtArray, which takes only type kind, dtype, shape) is the oracle for the eager and every traced execution; eager x2 value seeds, jit, eval_shape, vmap (3 in_axes forms), jit(vmap), grad",
+   text="For each generated decorated function over jax.Array the accept/reject outcome under jit / vmap / grad / eval_shape / compositions must equal the eager outcome on concrete arrays with two different value seeds, and both must equal the outcome TLC computes from shapes alone; array objects are reused across calls and sibling calls interleaved so that value- or identity-based shortcuts surface.",
+   note="Sampled cases (seeded). JAX 0.6.2 CPU only."),
 }
 NOT_YET = {}
 
